@@ -77,7 +77,7 @@ def gen_spec(rng, m, n_ops, with_mod=False, with_barrier=False, with_exc=False):
     kinds = ['mul', 'mul', 'add', 'sub', 'lt', 'eq', 'mulc', 'input', 'transfer', 'transfer_all', 'await', 'await',
              'gather', 'gather', 'output', 'ge']
     if with_mod:
-        kinds += ['mod', 'mod', 'mod']
+        kinds += ['mod', 'mod', 'mod', 'transfer', 'transfer', 'await', 'await', 'gather']
     if with_barrier:
         kinds += ['barrier', 'barrier']
     if with_exc:
@@ -336,6 +336,11 @@ def tree_values(t):
     return out
 
 
+def skeleton(t):
+    """Forks and uci draws only (send/receive sets legitimately depend on the party)."""
+    return [('fork', e[1], e[2], skeleton(e[3])) if e[0] == 'fork' else e for e in t if e[0] in ('fork', 'uci')]
+
+
 def tree_forks(t, acc):
     for e in t:
         if e[0] == 'fork':
@@ -434,11 +439,12 @@ def compile_gen(files):
     return out
 
 
-def regenerate(ctx):
+def regenerate(ctx, extra=('CoroWf.v',)):
     """Run the translator; compile gen/CoroTable.v. Returns (info, table_ok)."""
     import gen_coro_table
     info = gen_coro_table.generate(write=True)
-    r = compile_gen(['CoroTable.v'])
+    r = compile_gen(['CoroTable.v'] + list(extra))
+    info['compiled'] = r
     ok = r['CoroTable.v'][0]
     if not ok:
         ctx.broken.append({'kind': 'proof', 'file': 'gen/CoroTable.v', 'detail': r['CoroTable.v'][1]})
@@ -483,11 +489,10 @@ def search_witness(ctx, name, seed):
     if call is None:
         return False, {'reason': 'no witness template for %s' % name}
     pols = [('fifo', lambda: Fifo()), ('hold:0>2:40', lambda: Hold({(0, 2)}, 40)), ('hold:0>1:40', lambda: Hold({(0, 1)}, 40)),
-            ('hold:1>2:40', lambda: Hold({(1, 2)}, 40)), ('random:1', lambda: RandomOrder(random.Random(1))),
-            ('random:2', lambda: RandomOrder(random.Random(2)))]
+            ('random:1', lambda: RandomOrder(random.Random(1)))]
     outcomes = {}
     for first in (True, False):
-        for pn, pf in pols:
+        for pn, pf in (pols if first else pols[:2]):
             s = Session(3, 1, seed)
             try:
                 res, _ = s.run(witness_spec(call, first), pf, idle_limit=300)
@@ -571,11 +576,10 @@ def check_table(ctx, info, table_ok):
     if not table_ok:
         return
     ctx.obligations += 1
-    r = compile_gen(['CoroWf.v'])
-    wf_ok = r['CoroWf.v'][0]
+    wf_ok = info['compiled']['CoroWf.v'][0]
     names = ctx.coq_eval(['MPyC.PC', 'MPyCGen.CoroTable'],
                          ['map (fun e => fst (fst e)) (filter (fun e => negb (wf_entry e)) coro_table)',
-                          '(length coro_table, length (filter (fun e => match snd (fst e) with NoPC => true | PC => false end) coro_table))'])
+                          '(List.length coro_table, List.length (filter (fun e => match snd (fst e) with NoPC => true | PC => false end) coro_table))'])
     if isinstance(names[0], tuple) and names[0] and names[0][0] == 'ERROR':
         ctx.broken.append({'kind': 'correspondence', 'what': 'cannot evaluate coro_table', 'detail': names[0][1]})
         return
@@ -614,7 +618,7 @@ def replay_in_coq(ctx, items):
             tbl[(c + 1, d)] = asyncoro._hop([c + 1, d])      # the real hop, computed independently of the log
         tl = '[' + '; '.join('((%d)%%Z, %d%%nat, (%d)%%Z)' % (c, d, h) for (c, d), h in sorted(tbl.items())) + ']'
         exprs.append('all_labels (hop_of_table %s) ((%d)%%Z, %d%%nat) %s' % (tl, c0[0], c0[1], tree_to_coq(tree)))
-    return ctx.coq_eval(['MPyC.PC'], exprs, chunk=4, timeout=600)
+    return ctx.coq_eval(['MPyC.PC'], exprs, chunk=1, timeout=600)
 
 
 def canon_ev(v):
@@ -639,7 +643,8 @@ def run(ctx):
     nops = ctx.n(22, 40)
     replay_items, replay_meta = [], []
     stats = collections.Counter()
-    t_budget = ctx.n(120, 1100)
+    t_sim0 = time.time()
+    t_budget = ctx.n(75, 1000)
     for ci, (m, t) in enumerate(CONFIGS):
         progs = []
         for pi in range(nprog // len(CONFIGS)):
@@ -649,7 +654,7 @@ def run(ctx):
         pols = policies(rng, m, nhold=ctx.n(2, m * (m - 1)), nrand=ctx.n(2, 4))
         ref_trees = {}
         for pn, pf in pols:
-            if time.time() - ctx.t0 > t_budget:
+            if time.time() - t_sim0 > t_budget * (ci + 1) / len(CONFIGS):
                 ctx.notes.append('time budget reached: skipped schedule %s for (m,t)=(%d,%d)' % (pn, m, t))
                 continue
             sess = Session(m, t, ctx.seed + 3)       # same party tapes for every schedule: outputs must be equal
@@ -692,30 +697,31 @@ def run(ctx):
                         ctx.violation('schedule-dependent outcome: %s under %s (m=%d,t=%d)' % (
                             'parties pending' if bad else 'wrong output', pn.split(':')[0], m, t), detail)
                         break
-                    # cross-schedule / cross-party label agreement, via the Coq model
+                    # cross-schedule / cross-party label agreement
+                    if touched:
+                        # a NoPC task moved the base counter (reported above): the event structure of the base context
+                        # is then legitimately schedule-dependent, nothing further to compare for this run
+                        stats['runs_skipped_after_nopc_touch'] += 1
+                        continue
                     trees = [sess.mon.tree(i, starts[i]) for i in range(m)]
-                    c0s = sess.c0
-                    if (ci, pi) not in ref_trees:
-                        ref_trees[(ci, pi)] = (pn, trees[0], c0s[0])
-                        if c0s[0] is not None and len(replay_items) < ctx.n(16, 60) and not with_mod:
-                            replay_items.append(((m, t, pi), trees[0], c0s[0]))
-                            replay_meta.append({'m': m, 't': t, 'program': pi, 'schedule': pn,
-                                                'values': tree_values(trees[0])})
-                    rpn, rtree, rc0 = ref_trees[(ci, pi)]
                     for i in range(m):
-                        if tree_shape(trees[i]) != tree_shape(rtree):
-                            stats['shape_mismatch'] += 1
-                            d = {'case': key, 'party': i, 'reference_schedule': rpn}
-                            ctx.violation('schedule-dependent event structure%s' % (
-                                ' in a program using `%` (NoPC coroutine runtime.mod touches the program counter after '
-                                'its first await)' if with_mod else ''), d)
-                            break
-                        if tree_values(trees[i]) != tree_values(rtree):
+                        if (ci, pi, i) not in ref_trees:
+                            ref_trees[(ci, pi, i)] = (pn, trees[i])
+                            if i == 0 and len(replay_items) < ctx.n(10, 40):
+                                replay_items.append(((m, t, pi), trees[0], sess.c0[0]))
+                                replay_meta.append({'m': m, 't': t, 'program': pi, 'schedule': pn,
+                                                    'values': tree_values(trees[0])})
+                        rpn, rtree = ref_trees[(ci, pi, i)]
+                        if tree_shape(trees[i]) != tree_shape(rtree) or tree_values(trees[i]) != tree_values(rtree):
                             stats['label_mismatch'] += 1
-                            ctx.violation('labels differ between schedules/parties for the same structural events%s' % (
-                                ' in a program using `%` (NoPC coroutine runtime.mod touches the program counter after '
-                                'its first await)' if with_mod else ''),
-                                {'case': key, 'party': i, 'reference_schedule': rpn})
+                            ctx.violation('labels or event structure differ between schedules for the same program and party',
+                                          {'case': key, 'party': i, 'reference_schedule': rpn})
+                            break
+                        # across parties: the fork/uci skeleton (structure and counter values) must coincide
+                        if skeleton(trees[i]) != skeleton(trees[0]):
+                            stats['party_mismatch'] += 1
+                            ctx.violation('fork/uci labels differ between parties for the same program',
+                                          {'case': key, 'parties': [0, i]})
                             break
                         stats['trees_equal'] += 1
                 else:
